@@ -150,10 +150,17 @@ def batch_arrays(spec, cands, container="nd"):
     mea = np.array([c[2] for c in cands], dtype=dtype).reshape(n, measure_dim(spec))
     if container == "list":
         sol, obj, mea = sol.tolist(), obj.tolist(), mea.tolist()
-    elif container == "f64":
+    elif container in ("f64", "wide"):
         sol, obj, mea = sol.astype(np.float64), obj.astype(np.float64), mea.astype(np.float64)
+        if container == "wide" and dtype == np.float32:
+            # float64 measures that are not float32 values but round to the intended ones (only for archives that convert first)
+            pert = np.array([[1.0 + (2.0 ** -27 if (c[0] + j) % 2 == 0 else -(2.0 ** -27)) for j in range(mea.shape[1])] for c in cands]).reshape(mea.shape)
+            wide = mea * pert
+            assert np.array_equal(wide.astype(np.float32), mea.astype(np.float32))
+            mea = wide
     kw = {"solution": sol, "objective": obj, "measures": mea}
-    for name in spec["extras"]:
+    # keyword order of the extra fields varies from call to call (it must not matter)
+    for name in (list(reversed(spec["extras"])) if cands and cands[0][0] % 2 == 1 else spec["extras"]):
         if name == "eo":
             arr = np.empty(n, dtype=object)
             for k, c in enumerate(cands):
@@ -167,8 +174,10 @@ def batch_arrays(spec, cands, container="nd"):
 
 
 def single_args(spec, c, container="nd"):
-    kw = batch_arrays(spec, [c], "nd")
+    kw = batch_arrays(spec, [c], "wide" if container == "wide" else "nd")
     out = {k: v[0] for k, v in kw.items()}
+    if container == "wide":
+        out["objective"] = np.float64(out["objective"])
     if container == "list":
         out["solution"] = out["solution"].tolist()
         out["measures"] = out["measures"].tolist()
